@@ -1,10 +1,11 @@
 (* Extraction of the Assemble model for the C18 correspondence driver.
    ExtrOcamlBasic only; no Extract Constant / Extract Inductive of our own. *)
 From Coq Require Import ExtrOcamlBasic.
-From SV Require Import Lib.Bytes Lib.ExtractBase Model.Wire Model.Assemble Gen.Consts.
+From SV Require Import Lib.Bytes Lib.ExtractBase Model.Wire Model.Assemble Model.ShQuote Gen.Consts.
 Extraction "c18_model.ml" extract_anchor
   dec parse_int_line zdec zundec strip
   stub_package stub_upload boot_read_len table_src stub_remote_run stub_remote_spec stream_of
   render_options eval_options opt_ok remote_options
   client_startup writes_before_sync writes_after_sync server_main_start stdout_of
-  client_sync server_sync ping_frame.
+  client_sync server_sync ping_frame
+  pycmd sh_words ps_words sh_quote.
